@@ -357,6 +357,40 @@ def main():
         if bad:
             ck.violation("process killed at %s: a Go file is neither original nor complete: %s" % (inj, bad),
                          dict(name=sc.name, inject=inj, rc=ob["rc"]))
+    # ---------------- (E) a standard output that cannot be written (--print-only / -d > /dev/full): every file that could not
+    # be processed is still named, whatever its neighbours are (an unmatched file's echo failing used to end the run: fix)
+    import itertools as _it
+    KIND_SRC = {"bad": b"package p\n\nfunc f( {\n", "nomatch": b"package p\n\nfunc f() { other() }\n", "match": b"package p\n\nfunc f() { baz() }\n"}
+    e_cases = [(mode, ks) for mode in ("print", "diff") for ks in _it.product(("bad", "nomatch", "match"), repeat=3)]
+    def run_full(c):
+        mode, ks = c
+        sc = Scenario([("p.patch", b"@@\n@@\n-baz()\n+qux()\n")], {"f%d.go" % i: KIND_SRC[k] for i, k in enumerate(ks)}, {mode: True},
+                      name="stdout full %s %s" % (mode, "/".join(ks)))
+        root = vlib.scratch("full")
+        try:
+            clicorr.materialise(sc, root)
+            cwd = os.path.join(root, "w")
+            before = clicorr.snapshot(cwd)
+            argv, stdin = clicorr.command_line(sc, root)
+            with open("/dev/full", "wb") as full:
+                p_ = subprocess.run([vlib.GOPATCH] + argv, cwd=cwd, input=stdin, stdout=full, stderr=subprocess.PIPE, timeout=60)
+            return sc, {"argv": argv, "rc": p_.returncode, "stderr": p_.stderr, "changed": clicorr.snapshot(cwd) != before}
+        finally:
+            shutil.rmtree(root, ignore_errors=True)
+    for (mode, ks), (sc, ob) in zip(e_cases, vlib.pmap(run_full, e_cases, workers=8)):
+        ck.count(("stdout-full", mode, ks)); ck.tally("phase", "stdout-unwritable")
+        rep = dict(sc.describe(), argv=ob["argv"], rc=ob["rc"], stderr=ob["stderr"].decode("utf-8", "replace")[:2000])
+        writes = any(k == "match" for k in ks) or (mode == "print" and any(k == "nomatch" for k in ks))
+        if (writes or "bad" in ks) and ob["rc"] == 0:
+            ck.violation("standard output cannot be written (%s, files %s) but the exit status is 0" % (mode, "/".join(ks)), rep)
+        for i, k in enumerate(ks):
+            if k == "bad" and ("f%d.go" % i).encode() not in ob["stderr"]:
+                ck.violation("standard output cannot be written (%s, files %s): f%d.go does not parse but stderr does not name it"
+                             % (mode, "/".join(ks), i), rep)
+        if writes and b"no space left" not in ob["stderr"]:
+            ck.violation("standard output cannot be written (%s, files %s) and stderr does not say so" % (mode, "/".join(ks)), rep)
+        if ob["changed"]:
+            ck.violation("a file changed in %s mode" % mode, rep)
     ck.sample({"phase": "failure-matrix", "kind": "rewrite-error", "position": 2, "patches": [p[1].decode() for p in PATCHES]})
     ck.sample({"phase": "strace-trace", "inject": injections[1], "ops": keep[1][5]["ops"] if len(keep) > 1 else None})
     ck.cov["rule"] = ("(A) 5 failure kinds (unparseable source, rewrite error, unparseable result, unreadable file, write refused) at each "
@@ -365,7 +399,8 @@ def main():
                       "(B) RLIMIT_FSIZE at %d limits from 0 to beyond the largest file on a 3-file run: each Go file original or complete. "
                       "(C) %d runs under strace with injected write/fchmod/rename errors and short writes: the system-call sequence is mapped to "
                       "FsProto operations; the model decides that it is exactly a run of the protocol and that every prefix is safe. "
-                      "(D) %d real crash points: SIGKILL at the k-th write/fchmod/rename/close. distinct = distinct (phase, parameters)"
+                      "(D) %d real crash points: SIGKILL at the k-th write/fchmod/rename/close. (E) --print-only and -d into /dev/full on all 27 "
+                      "3-file runs over {unparseable, unmatched, matched}: non-zero status, every unparseable file named, the write failure reported. distinct = distinct (phase, parameters)"
                       % (len(limits), len(st_scs), len(k_scs)))
     ck.cov["trusted_base"] = [
         "Coq 8.16.1 kernel; no axioms (Properties/C16.v closed under the global context)",
